@@ -7,6 +7,9 @@ from vlib import common
 def key_fn(case, obs, verdict):
     f = case.split(" ")
     v = verdict[4:] if verdict.startswith("BAD:") else verdict
+    if v.startswith("iterations-differ-in-"):
+        # contended drains: which observable deviated in some iteration (the values are timing dependent)
+        return "%s:%s" % (f[0], v.split(" ")[0])
     # family = case kind + what fails, with the concrete numbers removed
     v = re.sub(r"-?\d+", "#", v)
     v = re.sub(r"\{[^}]*\}", "{..}", v)
